@@ -99,6 +99,22 @@ Proof. exact never_panics. Qed.
 Theorem C27_both_constructors_initialise_all_maps : alive wrap /\ alive wrap_all /\ wrap <> wrap_all.
 Proof. exact ctors_alive. Qed.
 
+(* ---- concurrency.  All theorems above are about SEQUENTIAL histories.  For overlapping calls
+   only the code as it is is modelled for one case, and it refutes the property there: openDB
+   releases the mutex around the underlying OpenDB, so two OpenDB(name) calls on a closed name,
+   the second issued while the first is inside the underlying open, both open the underlying
+   database: two different stores are returned and the counting clauses (conc_ok: at most one
+   live store per name) fail; the store of the second call is never closed by the two matching
+   closes.  Known finding C27-concurrent-first-open (not repaired: a fix has to decide what to do
+   with the duplicate underlying store).  Other overlaps are tested on forced interleavings only. *)
+Theorem C27_overlapping_first_opens_refuted :
+  forall s0, s0 = wrap \/ s0 = wrap_all ->
+  let '(s, r1, r2, ev) := open_overlap 0 s0 in
+  r1 = RHandle 0 /\ r2 = RHandle 1 /\ ev = [UOpen 0 0; UOpen 0 1] /\
+  conc_ok [([KOpen 0 r1; KOpen 0 r2], ev)] = false /\
+  snd (crun s [CClose 0; CClose 0]) = [(CClose 0, ROk, []); (CClose 0, ROk, [UClose 0])].
+Proof. exact overlapping_first_opens. Qed.
+
 (* non-vacuity: a history with a cached open, a counted-down close, the real close, an
    over-close, a guarded second drop and a re-open with a fresh store *)
 Example C27_ex_history :
@@ -119,4 +135,5 @@ Print Assumptions C27_drop_reaches_underlying_iff_droppable.
 Print Assumptions C27_not_droppable_again_before_next_open.
 Print Assumptions C27_drops_per_store_at_most_open_calls.
 Print Assumptions C27_never_panics.
+Print Assumptions C27_overlapping_first_opens_refuted.
 Print Assumptions C27_both_constructors_initialise_all_maps.
